@@ -112,6 +112,37 @@ def run(ctx):
                       f'after `{norm(r.ast, 60)}` a later iteration can reach {[norm(u.ast, 50) for u in stale][:2]} without a fresh '
                       f'`repl.copy()`: the consumed copy would be put again', r.lineno)
 
+    # ---- R18.7 -------------------------------------------------------------------------------------------------------
+    ctx.rule('R18.7', 'the nodes of the filled-in template are entered into the "do not substitute again" set on every path from the template copy '
+                      'to the replace (a template that itself contains a match must not be substituted again when the walk descends into it)', 1)
+    # the guard sets of the driver: locals created as set() that some test in the driver asks `x in S` / `x not in S`
+    made = {norm(n.targets[0]) for n in walk_no_nested(sub.node) if isinstance(n, ast.Assign) and len(n.targets) == 1 and isinstance(n.targets[0], ast.Name)
+            and isinstance(n.value, ast.Call) and call_name(n.value) == 'set' and not n.value.args}
+    asked = {c.id for n in walk_no_nested(sub.node) if isinstance(n, ast.Compare) and len(n.ops) == 1 and isinstance(n.ops[0], (ast.In, ast.NotIn))
+             for c in n.comparators if isinstance(c, ast.Name)}
+    guards = made & asked
+    if copy_nodes:
+        cp = copy_nodes[0]
+        marks = {n.id for n in cfg.nodes for x in subnodes(cfg, n)
+                 if isinstance(x, ast.Call) and isinstance(x.func, ast.Attribute) and x.func.attr in ('update', 'add') and norm(x.func.value) in guards
+                 and any(isinstance(y, ast.Name) and y.id == 'repl_' for a in x.args for y in ast.walk(a))}
+        # loop form: `for a in walk(repl_.a): dirty.add(a)` marks at the loop header (the walk yields at least the root of the copy)
+        for n in cfg.nodes:
+            if n.kind == 'iter' and any(isinstance(y, ast.Name) and y.id == 'repl_' for y in ast.walk(n.ast.iter)) and \
+                    any(isinstance(x, ast.Call) and isinstance(x.func, ast.Attribute) and x.func.attr in ('update', 'add') and norm(x.func.value) in guards
+                        for b in n.ast.body for x in ast.walk(b)):
+                marks.add(n.id)
+        if not guards or not marks:
+            raise AnalysisError('subn(): no guard set that receives the nodes of the template copy found (anchor vanished)')
+        rep7 = [n for n in cfg.nodes if any(isinstance(x, ast.Call) and call_name(x) == 'replace' and x.args and norm(x.args[0]) == 'repl_'
+                                            for x in subnodes(cfg, n))]
+        for r in rep7:
+            unmarked = cfg.reachable(cp.id, lambda n, lab, s: lab != 'exc' and n.id not in marks)
+            ctx.check('R18.7', r.id not in unmarked and r.id not in marks, 'match', 'subn', f'template nodes entered into {sorted(guards)} before replace',
+                      f'`{norm(r.ast, 60)}` is reachable from the template copy on a path that does not enter the copy\'s nodes into the guard set '
+                      f'{sorted(guards)}: with nested=True the walk descends into the new nodes and a template that contains a match is substituted again, '
+                      f'without end', r.lineno, sample={'guard_sets': sorted(guards), 'marking_nodes': len(marks)})
+
     # ---- R18.3 -------------------------------------------------------------------------------------------------------
     ctx.rule('R18.3', 'exactly one `total_count += 1` per `matched.replace(repl_, ...)`: the increment is dominated by the replace '
                       'and post-dominates it on normal paths; both occur once', 3)
